@@ -32,6 +32,9 @@ type C07Op struct {
 	// Noise: for the directory passes, what else lies in the scanned directory: 1 = a .gitignore
 	// ignoring *.iml / *.log plus such files sorting before, between and after the sources
 	Noise int `json:"noise,omitempty"`
+	// ArgForm: how the directory is named on the call: 0 absolute, 1 relative to the working
+	// directory, 2 "./"-prefixed relative, 3 absolute with a trailing slash
+	ArgForm int `json:"arg_form,omitempty"`
 }
 
 type C07Proc struct {
@@ -132,6 +135,9 @@ func genHistory(t *tape.Tape, nFiles int, thorough bool, passes []string) []C07P
 				if t.Bool(1, 4) {
 					op.Noise = 1
 				}
+				if t.Bool(1, 3) {
+					op.ArgForm = t.Int(1, 3)
+				}
 			}
 			proc.Ops = append(proc.Ops, op)
 		}
@@ -213,6 +219,37 @@ func (r *c07run) place(dir string, pos int, fi int) (string, error) {
 	return p, nil
 }
 
+// argForm renders a directory argument in the drawn form and registers the path spellings that
+// can appear in results so that they normalise to the same logical ids.
+func (r *c07run) argForm(dir string, form int) string {
+	rel, err := filepath.Rel(r.ctx.Dir, dir)
+	if err != nil {
+		return dir
+	}
+	out := dir
+	switch form {
+	case 1:
+		out = rel
+	case 2:
+		out = "./" + rel
+	case 3:
+		out = dir + "/"
+	}
+	if form != 0 {
+		r.out.Faults["arg-form"]++
+		// spellings coca may derive from the argument: joined as given, or cleaned by filepath.Walk
+		for p, id := range r.paths {
+			if strings.HasPrefix(p, dir+"/") {
+				tail := strings.TrimPrefix(p, dir+"/")
+				r.paths[out+"/"+tail] = id
+				r.paths[filepath.Clean(out)+"/"+tail] = id
+				r.paths[strings.TrimSuffix(out, "/")+"//"+tail] = id
+			}
+		}
+	}
+	return out
+}
+
 // addNoise drops a .gitignore and ignored regular files around the sources of a scanned directory.
 func (r *c07run) addNoise(dir string, n int) {
 	os.WriteFile(filepath.Join(dir, ".gitignore"), []byte("*.iml\n*.log\nbuild/\n"), 0644)
@@ -236,9 +273,6 @@ func (r *c07run) newDir() string {
 // normalise replaces every materialised path in a JSON text by the logical file id.
 func (r *c07run) normalise(raw json.RawMessage) json.RawMessage {
 	s := string(raw)
-	if !strings.Contains(s, r.ctx.Dir) {
-		return raw
-	}
 	var keys []string
 	for p := range r.paths {
 		keys = append(keys, p)
@@ -664,10 +698,11 @@ func (C07) Run(ctx *sim.RunCtx, data json.RawMessage) (*sim.Outcome, error) {
 				if op.Noise > 0 {
 					r.addNoise(dir, len(files))
 				}
+				arg := r.argForm(dir, op.ArgForm)
 				if op.Pass == "bs" {
-					proc.Ops = append(proc.Ops, sim.Op{Op: "bs", Args: map[string]interface{}{"dir": dir}})
+					proc.Ops = append(proc.Ops, sim.Op{Op: "bs", Args: map[string]interface{}{"dir": arg}})
 				} else {
-					proc.Ops = append(proc.Ops, sim.Op{Op: "api", Args: map[string]interface{}{"dir": dir, "deps": depsFile, "ident": identFile}})
+					proc.Ops = append(proc.Ops, sim.Op{Op: "api", Args: map[string]interface{}{"dir": arg, "deps": depsFile, "ident": identFile}})
 				}
 			case "call", "rcall":
 				sop, key := graphOf(op)
